@@ -7,7 +7,7 @@ EXTENDS Integers, Sequences, FiniteSets
 Sd(cc, code, kind) ==
     [cc |-> cc, code |-> code, kind |-> kind, good |-> "GOOD", lab |-> "LAB", taxto |-> "GOV",
      issuer |-> "GOV", margin |-> FALSE, tre |-> 0, trector |-> FALSE, mkts |-> << >>,
-     aw |-> FALSE, gift |-> FALSE, extra |-> << >>]
+     aw |-> << >>, gift |-> FALSE, extra |-> << >>]
 
 Bp(name, countries, sectors, free) ==
     [name |-> name, countries |-> countries, external |-> "none", sectors |-> sectors, free |-> free,
@@ -42,7 +42,7 @@ SIMMON == [Bp("SIMMON", C1,
 
 \* deposits issued by a consolidated government, household allocates between DEP and MON
 SIMDEP == [Bp("SIMDEP", C1,
-           << Sd("C", "GOV", "ConsolidatedGovernment"), [Sd("C", "HH", "Household") EXCEPT !.aw = TRUE],
+           << Sd("C", "GOV", "ConsolidatedGovernment"), [Sd("C", "HH", "Household") EXCEPT !.aw = << "DEP" >>],
               Sd("C", "BUS", "FixedMarginBusiness"), Sd("C", "TF", "TaxFlow"),
               Sd("C", "LAB", "Market"), Sd("C", "GOOD", "Market"), Sd("C", "MON", "MoneyMarket"),
               Sd("C", "DEP", "DepositMarket") >>, {2, 3, 7, 8})
@@ -51,7 +51,7 @@ SIMDEP == [Bp("SIMDEP", C1,
 \* ---- treasury + central bank (model PC) -----------------------------------------------
 PC == [Bp("PC", C1,
            << Sd("C", "TRE", "Treasury"), [Sd("C", "CB", "CentralBank") EXCEPT !.tre = 1],
-              [Sd("C", "HH", "Household") EXCEPT !.aw = TRUE], Sd("C", "BUS", "FixedMarginBusiness"),
+              [Sd("C", "HH", "Household") EXCEPT !.aw = << "DEP" >>], Sd("C", "BUS", "FixedMarginBusiness"),
               [Sd("C", "TF", "TaxFlow") EXCEPT !.taxto = "TRE"], Sd("C", "LAB", "Market"), Sd("C", "GOOD", "Market"),
               [Sd("C", "MON", "MoneyMarket") EXCEPT !.issuer = "CB"],
               [Sd("C", "DEP", "DepositMarket") EXCEPT !.issuer = "TRE"] >>, {2, 4, 8, 9})
@@ -153,6 +153,22 @@ TWOBUS == [Bp("TWOBUS", C1,
               Sd("C", "TF", "TaxFlow"), Sd("C", "LAB", "Market"), Sd("C", "GOOD", "Market"), Sd("C", "FOOD", "Market") >>, {3, 4, 5})
         EXCEPT !.freeq = {3, 5}, !.exo = << Exo(1, "DEM_GOOD"), Exo(1, "DEM_FOOD") >>]
 
-AllBlueprints == {TWOBUS, SIMR, SIMEXR, JOIN2, JOIN2X, GOLD2, GOLDNOEXT, SIM, SIMEX, SIMCAP, SIMMARGIN, SIMMON, SIMDEP, PC, MULTI, FED, GIFT, GIFT2, IMPORT, NOEXT1, NOEXT2, NOSUP, TWOSUP}
+\* ---- the same flow variable registered twice on one sector (a donor with two recipients) -------------------------
+TWOGIFTS == [Bp("TWOGIFTS", C1,
+           << Sd("C", "GOV", "ConsolidatedGovernment"), [Sd("C", "HH", "Household") EXCEPT !.gift = TRUE],
+              Sd("C", "BUS", "FixedMarginBusiness"), Sd("C", "TF", "TaxFlow"),
+              Sd("C", "LAB", "Market"), Sd("C", "GOOD", "Market"), Sd("C", "CAP", "Capitalists") >>, {3, 7})
+        EXCEPT !.freeq = {7}, !.exo = << Exo(1, "DEM_GOOD") >>,
+               !.flows = << Flow(2, 1, "GIFT", TRUE, TRUE), Flow(2, 7, "GIFT", TRUE, TRUE), Flow(7, 2, "DIV", FALSE, FALSE) >>]
+
+\* ---- a portfolio over three assets: two deposit-like markets and money -------------------------------------------
+SIMBOND == [Bp("SIMBOND", C1,
+           << Sd("C", "GOV", "ConsolidatedGovernment"), [Sd("C", "HH", "Household") EXCEPT !.aw = << "DEP", "BOND" >>],
+              Sd("C", "BUS", "FixedMarginBusiness"), Sd("C", "TF", "TaxFlow"),
+              Sd("C", "LAB", "Market"), Sd("C", "GOOD", "Market"), Sd("C", "MON", "MoneyMarket"),
+              Sd("C", "DEP", "DepositMarket"), Sd("C", "BOND", "DepositMarket") >>, {2, 8, 9})
+        EXCEPT !.freeq = {9}, !.exo = << Exo(1, "DEM_GOOD"), Exo(8, "r"), Exo(9, "r") >>]
+
+AllBlueprints == {TWOBUS, TWOGIFTS, SIMBOND, SIMR, SIMEXR, JOIN2, JOIN2X, GOLD2, GOLDNOEXT, SIM, SIMEX, SIMCAP, SIMMARGIN, SIMMON, SIMDEP, PC, MULTI, FED, GIFT, GIFT2, IMPORT, NOEXT1, NOEXT2, NOSUP, TWOSUP}
 QuickBlueprints == { [b EXCEPT !.free = b.freeq] : b \in AllBlueprints }
 =============================================================================
